@@ -112,28 +112,56 @@ class BooleanExpression(Expression):
         )
 
     def __str__(self) -> str:
-        def _str(expression: Expression, parent_precedence: int) -> str:
-            if isinstance(expression, LogicalAndExpression):
-                precedence = PRECEDENCE_LOGICAL_AND
-                op = "and"
-                left = _str(expression.left, precedence)
-                right = _str(expression.right, precedence)
-            elif isinstance(expression, LogicalOrExpression):
-                precedence = PRECEDENCE_LOGICAL_OR
-                op = "or"
-                left = _str(expression.left, precedence)
-                right = _str(expression.right, precedence)
-            elif isinstance(expression, LogicalNotExpression):
+        def _str(
+            expression: Expression,
+            parent_precedence: int,
+            parent_binding: int = PRECEDENCE_LOWEST,
+            *,
+            left: bool = False,
+            operand: bool = False,
+        ) -> str:
+            if isinstance(expression, LogicalNotExpression):
                 operand_str = _str(expression.right, PRECEDENCE_PREFIX)
                 expr = f"not {operand_str}"
-                if parent_precedence > PRECEDENCE_PREFIX:
+                # `not` takes everything to its right as its operand, so it needs
+                # parentheses whenever it is itself an operand.
+                if operand or parent_precedence > PRECEDENCE_PREFIX:
                     return f"({expr})"
                 return expr
+
+            # `precedence` decides where parentheses make the output easier to
+            # read. `binding` is the precedence the parser uses, where `and` and
+            # `or` bind equally and every infix operator groups from the right.
+            if isinstance(expression, LogicalAndExpression):
+                precedence, binding, op = (
+                    PRECEDENCE_LOGICAL_AND,
+                    PRECEDENCE_LOGICAL_RIGHT,
+                    "and",
+                )
+            elif isinstance(expression, LogicalOrExpression):
+                precedence, binding, op = (
+                    PRECEDENCE_LOGICAL_OR,
+                    PRECEDENCE_LOGICAL_RIGHT,
+                    "or",
+                )
+            elif isinstance(expression, ContainsExpression):
+                precedence = binding = PRECEDENCE_MEMBERSHIP
+                op = "contains"
+            elif isinstance(expression, _COMPARISONS):
+                precedence = binding = PRECEDENCE_RELATIONAL
+                op = _COMPARISON_SYMBOLS[type(expression)]
             else:
                 return str(expression)
 
-            expr = f"{left} {op} {right}"
-            if precedence < parent_precedence:
+            lhs = _str(expression.left, precedence, binding, left=True, operand=True)
+            rhs = _str(expression.right, precedence, binding, operand=True)
+            expr = f"{lhs} {op} {rhs}"
+
+            if (
+                precedence < parent_precedence
+                or (left and binding <= parent_binding)
+                or (operand and not left and binding < parent_binding)
+            ):
                 return f"({expr})"
             return expr
 
@@ -425,6 +453,18 @@ class ContainsExpression(Expression):
 
     def children(self) -> list[Expression]:
         return [self.left, self.right]
+
+
+_COMPARISON_SYMBOLS: dict[type, str] = {
+    EqExpression: "==",
+    NeExpression: "!=",
+    LeExpression: "<=",
+    GeExpression: ">=",
+    LtExpression: "<",
+    GtExpression: ">",
+}
+
+_COMPARISONS = tuple(_COMPARISON_SYMBOLS)
 
 
 def parse_boolean_primitive(  # noqa: PLR0912
